@@ -20,10 +20,57 @@
 #include <stdlib.h>
 #include <string.h>
 #include <unistd.h>
+#include <fcntl.h>
+#include <pthread.h>
 #include <time.h>
 
 #define MAXC 4
 static int M, N, LD, DIAG, NTILES, NCONS, DELAY_US;
+
+/* ---- quiescence watchdog over ALL ranks (vs_support's own watchdog is per process: under heavy machine load a rank that only
+ * waits for a slow peer would be reported as hung).  Every rank publishes (progress, done, expected) in <log>.hb.<rank> every
+ * 100 ms; a rank with missing tasks reports QUIESCENT when no rank made progress for tq seconds. */
+static long c18_progress, c18_ndone, c18_expected;
+static int c18_rank, c18_world, c18_stop;
+static double c18_tq;
+static char c18_hbprefix[1024];
+
+void c18_done(void) { __atomic_fetch_add(&c18_ndone, 1, __ATOMIC_SEQ_CST); __atomic_fetch_add(&c18_progress, 1, __ATOMIC_SEQ_CST); }
+
+static void *c18_watchdog(void *arg)
+{
+    (void)arg;
+    long last[8][3], cur[8][3]; double idle = 0; int fd[8]; char path[1100];
+    memset(last, -1, sizeof last);
+    for( int r = 0; r < c18_world; r++ ) fd[r] = -1;
+    snprintf(path, sizeof path, "%s.%d", c18_hbprefix, c18_rank);
+    fd[c18_rank] = open(path, O_RDWR | O_CREAT | O_TRUNC, 0644);
+    for(;;) {
+        struct timespec ts = {0, 100 * 1000 * 1000}; nanosleep(&ts, NULL);
+        if( __atomic_load_n(&c18_stop, __ATOMIC_SEQ_CST) ) return NULL;
+        long mine[3] = { __atomic_load_n(&c18_progress, __ATOMIC_SEQ_CST), __atomic_load_n(&c18_ndone, __ATOMIC_SEQ_CST), c18_expected };
+        if( fd[c18_rank] >= 0 && pwrite(fd[c18_rank], mine, sizeof mine, 0) != (ssize_t)sizeof mine ) { /* ignore */ }
+        int known = 1, changed = 0;
+        for( int r = 0; r < c18_world; r++ ) {
+            if( r == c18_rank ) { memcpy(cur[r], mine, sizeof mine); }
+            else {
+                if( fd[r] < 0 ) { snprintf(path, sizeof path, "%s.%d", c18_hbprefix, r); fd[r] = open(path, O_RDONLY); }
+                if( fd[r] < 0 || pread(fd[r], cur[r], sizeof cur[r], 0) != (ssize_t)sizeof cur[r] ) { known = 0; continue; }
+            }
+            if( memcmp(cur[r], last[r], sizeof cur[r]) ) { changed = 1; memcpy(last[r], cur[r], sizeof cur[r]); }
+        }
+        if( !known || changed ) { idle = 0; continue; }
+        idle += 0.1;
+        if( idle >= c18_tq && mine[1] < mine[2] ) {
+            char buf[400]; int len = 0;
+            for( int r = 0; r < c18_world; r++ ) len += snprintf(buf + len, sizeof buf - len, " %d:%ld/%ld", r, cur[r][1], cur[r][2]);
+            vs_note("C18-QUIESCENT rank %d: no rank made progress for %.1f s, tasks done/expected per rank:%s", c18_rank, idle, buf);
+            vs_finish();
+            fprintf(stderr, "C18 QUIESCENT-INCOMPLETE rank %d%s\n", c18_rank, buf);
+            _exit(3);
+        }
+    }
+}
 
 int c18_prod_val(int k, int i, int j) { return 100000 * (k + 1) + 100 * j + i + 11; }
 int c18_init_val(int k, int i, int j) { return 7000000 + 1000 * k + 10 * j + i; }
@@ -33,6 +80,7 @@ void c18_obs(const char *what, int c, int k, const void *ptr)
 {
     char buf[480]; int len = 0;
     const int *A = (const int *)ptr;
+    __atomic_fetch_add(&c18_progress, 1, __ATOMIC_SEQ_CST);
     len += snprintf(buf + len, sizeof buf - len, "OBS %s %d %d %p", what, c, k, ptr);
     if( NULL == A ) { vs_note("%s NULL", buf); return; }
     for( int j = 0; j < N; j++ )
@@ -59,6 +107,7 @@ void c18_mark(int c, int k, void *ptr)
 
 void c18_delay(void)
 {
+    if( NULL != getenv("C18_SELFTEST_HANG") ) for(;;) pause();   /* self-test of the watchdog path only */
     if( DELAY_US > 0 ) { struct timespec ts = {0, DELAY_US * 1000L}; nanosleep(&ts, NULL); }
 }
 
@@ -90,7 +139,9 @@ int main(int argc, char **argv)
         for( int c = 0; c < NCONS; c++ ) if( crank[c][k] % world == rank ) expected += 2;
     }
     char logpath[1024]; snprintf(logpath, sizeof logpath, "%s.%d", argv[2], rank);
-    vs_init(rank, expected, tq_ms / 1000.0, logpath);
+    vs_init(rank, expected, 0.0 /* the watchdog is c18_watchdog */, logpath);
+    c18_rank = rank; c18_world = world; c18_expected = expected; c18_tq = tq_ms / 1000.0;
+    snprintf(c18_hbprefix, sizeof c18_hbprefix, "%s.hb", argv[2]);
 
     int pargc = 0; char **pargv = NULL;
     parsec_context_t *parsec = parsec_init(nthreads, &pargc, &pargv);
@@ -129,9 +180,11 @@ int main(int argc, char **argv)
     int rc = parsec_context_add_taskpool(parsec, (parsec_taskpool_t *)tp);
     if( rc != 0 ) { fprintf(stderr, "add_taskpool rc=%d\n", rc); return 2; }
     MPI_Barrier(MPI_COMM_WORLD);
-    vs_arm();
+    if( world > 8 ) { fprintf(stderr, "c18: at most 8 ranks\n"); return 2; }
+    pthread_t wd; pthread_create(&wd, NULL, c18_watchdog, NULL); pthread_detach(wd);
     rc = parsec_context_start(parsec);
     rc = parsec_context_wait(parsec);
+    __atomic_store_n(&c18_stop, 1, __ATOMIC_SEQ_CST);
     vs_note("WAITED rc %d", rc);
     for( int k = 0; k < NTILES; k++ ) {
         if( prank[k] % world != rank ) continue;
